@@ -556,8 +556,6 @@ pub fn run(ctx: &Ctx) -> i32 {
     };
     let machinery: Mutex<Vec<String>> = Mutex::new(vec![]);
     let mut fam_json = vec![];
-    // one explorer (3 worker threads) per slot; hand-off is latency bound so oversubscribe mildly
-    let slots = (ctx.threads * 3 / 2).max(1);
     explore_families(ctx, families(ctx.tier), &sig, &tot, &machinery, &mut fam_json);
     let mach = machinery.lock().unwrap();
     if !mach.is_empty() {
